@@ -10,14 +10,1136 @@ operation) plus a hindsight argument for the `Get` family (the value returned is
 key at the instant of the lock-free `Load`, an instant inside the call).  The simulation relation is the one
 of the sequential refinement (`Proofs.CacheRefine.Sim`) between the concrete shared state and the ghost
 abstract state, which changes only at linearization points and at clock ticks.
+
+Owicki–Gries shape: a global invariant `GI` (the simulation relation), a per-thread local invariant `LI` (it
+mentions, of the globals, only the clock, which no thread step changes and which only grows), `li_self` /
+`gi_tstep` for the stepping thread, `li_other` / `li_mono` for the others and for clock ticks, lifted to
+`Inv` / `inv_step` / `inv_reach`.
+
+Main results: `gi_init`, `gi_step`, `gi_reach` (invariant); `lp_result`, `lp_setStore` (linearization points
+return the spec's answer and advance the ghost abstract state by the spec step); `abs_frame` (no other step
+changes the abstract state); `get_load`, `get_hindsight` (hindsight for the `Get` family); `gd_compute`,
+`de_compute`, `erased_step`, `ledger_only_removed`, `never_removes_live` (callbacks, C06); `no_step_blocks`
+(C13 at cache level); `reach_tstep` (the step-level theorems apply to every step of every run).
 -/
 set_option linter.unusedSectionVars false
+set_option linter.unusedVariables false
 namespace Proofs.ConcCacheLin
-open Spec Model Model.ConcCache Proofs.CacheRefine
+open Spec Model Model.ConcCache Proofs.CacheRefine Proofs.LeafCache
 
 variable {K V : Type} [DecidableEq K] [Inhabited V]
 
 /-- global invariant: the shared state is related to the ghost abstract state -/
 def GI (g : G K V) : Prop := Sim (view g) g.abs
+
+/-- storing an item that is already expired is, logically, an erase -/
+theorem sim_store_dead (s : Cache.St K V) (a : TTL.St K V) (h : Sim s a) (k : K) (i : Item V)
+    (hl : TTL.expired i.e s.now = true) :
+    Sim { s with items := s.items.set k i } { a with live := a.live.erase k } := by
+  have he : 0 ≤ i.e := by simp [TTL.expired] at hl; omega
+  refine ⟨WF_set s h.wf k i he, AMap.WF_erase _ _ h.awf, h.now, h.dflt, h.cb, ?_⟩
+  intro k'
+  rw [lget_set, AMap.get_erase, h.get k', hl]; simp
+
+inductive Cls where | set | get | rmw | gd | de | clear | count | sd | sc
+  deriving DecidableEq
+
+def opCls : COp K V → Cls
+  | .set .. => .set
+  | .get _ | .getWithExpiration _ | .getWithTTL _ => .get
+  | .getOrSet .. | .getAndSet .. | .getAndRefresh .. | .getOrCompute .. | .compute .. => .rmw
+  | .getAndDelete _ | .delete _ => .gd
+  | .deleteExpired => .de
+  | .clear => .clear
+  | .count => .count
+  | .setDefaultExpiration _ => .sd
+  | .setEvictedCallback _ => .sc
+
+def pcCls : Pc → Option Cls
+  | .idle | .ret => none
+  | .setReadDflt | .setReadClock | .setStore => some .set
+  | .getLoad | .getChkClock | .getCompute => some .get
+  | .rmw => some .rmw
+  | .gdCompute | .gdReadCb | .gdFire => some .gd
+  | .deReadCb | .deReadClock | .deVisit | .deCompute | .deFire => some .de
+  | .clClear => some .clear
+  | .cntSize => some .count
+  | .sdStore => some .sd
+  | .scStore => some .sc
+
+def dePass : Pc → Bool
+  | .deVisit | .deCompute | .deFire => true
+  | _ => false
+
+structure LI (now : Int) (l : L K V) : Prop where
+  cls : ∀ c, pcCls l.pc = some c → ∃ op, l.op = some op ∧ opCls op = c
+  setD : ∀ k v d, l.op = some (.set k v d) →
+      (l.pc = .setReadDflt → d = Gen.DefaultExpiration) ∧
+      ((l.pc = .setReadClock ∨ l.pc = .setStore) → d ≠ Gen.DefaultExpiration → l.d = d)
+  setE : l.pc = .setStore → ∃ t0, 0 ≤ t0 ∧ t0 ≤ now ∧ l.e = if l.d > 0 then t0 + l.d else 0
+  hind : l.pc = .getChkClock → ∃ i, l.loaded = some i ∧ l.nowAtLoad ≤ now ∧
+      l.absAtLoad = if TTL.expired i.e l.nowAtLoad then none else some i
+  pass : dePass l.pc = true → l.passNow ≤ now
+  cur : l.pc = .deCompute → l.cur.isSome = true
+  rem : (l.pc = .gdReadCb ∨ l.pc = .gdFire) → ∀ k, opKey l = some k → ∃ i, l.removed = some i ∧ (k, i.v) ∈ l.erased
+  que : ∀ p ∈ l.queue, p ∈ l.erased
+
+theorem li_init (now : Int) : LI now (L.init : L K V) := by
+  refine ⟨?_, ?_, ?_, ?_, ?_, ?_, ?_, ?_⟩ <;> simp [L.init, pcCls, dePass]
+
+theorem li_mono (now now' : Int) (l : L K V) (h : now ≤ now') (hl : LI now l) : LI now' l := by
+  obtain ⟨h1, h2, h3, h4, h5, h6, h7, h8⟩ := hl
+  refine ⟨h1, h2, ?_, ?_, ?_, h6, h7, h8⟩
+  · intro hp; obtain ⟨t0, a, b, c⟩ := h3 hp; exact ⟨t0, a, by omega, c⟩
+  · intro hp; obtain ⟨i, a, b, c⟩ := h4 hp; exact ⟨i, a, by omega, c⟩
+  · intro hp; have := h5 hp; omega
+
+theorem li_startOp (now : Int) (l : L K V) (op : COp K V) : LI now (startOp l op) := by
+  cases op
+  case set k v d =>
+    by_cases hd : d = Gen.DefaultExpiration <;>
+      (refine ⟨?_, ?_, ?_, ?_, ?_, ?_, ?_, ?_⟩ <;> simp [startOp, pcCls, dePass, opCls, hd])
+  all_goals (refine ⟨?_, ?_, ?_, ?_, ?_, ?_, ?_, ?_⟩ <;> simp [startOp, pcCls, dePass, opCls])
+
+theorem tstep_now (t : Tid) (g : G K V) (l : L K V) (c : Choice K V) (g' : G K V) (l' : L K V)
+    (hs : tstep t g l c = some (g', l')) : g'.now = g.now := by
+  cases hpc : l.pc <;> simp only [tstep, hpc] at hs <;>
+    (repeat' split at hs) <;>
+    simp only [Option.some.injEq, reduceCtorEq, Prod.mk.injEq] at hs <;>
+    obtain ⟨rfl, rfl⟩ := hs <;> rfl
+
+macro "li_auto " hs:ident : tactic =>
+  `(tactic| ((repeat' split at $hs:ident) <;>
+    simp only [Option.some.injEq, reduceCtorEq, Prod.mk.injEq] at $hs:ident <;>
+    rcases $hs:ident with ⟨hg', hl'⟩ <;> subst hg' <;> subst hl' <;>
+    (refine ⟨?_, ?_, ?_, ?_, ?_, ?_, ?_, ?_⟩ <;> simp_all [pcCls, dePass, opKey])))
+
+
+/-! ## The local invariant is preserved by the thread's own steps -/
+
+theorem load_true {α : Type} [Inhabited α] (m : AMap K α) (k : K) (i : α) (h : m.load k = (i, true)) : m.get k = some i := by
+  unfold AMap.load at h
+  split at h
+  · rename_i v hv
+    simp only [Prod.mk.injEq, and_true] at h
+    rw [hv, h]
+  · simp at h
+
+theorem load_false {α : Type} [Inhabited α] (m : AMap K α) (k : K) (i : α) (h : m.load k = (i, false)) : m.get k = none := by
+  unfold AMap.load at h
+  split at h
+  · simp at h
+  · assumption
+
+theorem li_self_setReadDflt (t : Tid) (g : G K V) (l : L K V) (c : Choice K V) (g' : G K V) (l' : L K V)
+    (hg : GI g) (hl : LI g.now l) (hpc : l.pc = .setReadDflt) (hs : tstep t g l c = some (g', l')) : LI g.now l' := by
+  have hnow := hg.wf.now0
+  obtain ⟨h1, h2, h3, h4, h5, h6, h7, h8⟩ := hl
+  simp only [tstep, hpc] at hs
+  li_auto hs
+  intro k v d ho hd
+  exact absurd (h2 k v d ho) hd
+
+theorem li_self_setReadClock (t : Tid) (g : G K V) (l : L K V) (c : Choice K V) (g' : G K V) (l' : L K V)
+    (hg : GI g) (hl : LI g.now l) (hpc : l.pc = .setReadClock) (hs : tstep t g l c = some (g', l')) : LI g.now l' := by
+  have hnow := hg.wf.now0
+  obtain ⟨h1, h2, h3, h4, h5, h6, h7, h8⟩ := hl
+  simp only [tstep, hpc] at hs
+  simp only [Option.some.injEq, Prod.mk.injEq] at hs
+  obtain ⟨rfl, rfl⟩ := hs
+  refine ⟨?_, ?_, ?_, ?_, ?_, ?_, ?_, ?_⟩ <;> simp [pcCls, dePass, opKey]
+  · exact h1 _ (by simp [hpc, pcCls])
+  · exact fun k v d ho => (h2 k v d ho).2 (Or.inl hpc)
+  · exact ⟨g.now, hnow, Int.le_refl _, rfl⟩
+  · exact fun a b => h8 (a, b)
+
+theorem li_self_setStore (t : Tid) (g : G K V) (l : L K V) (c : Choice K V) (g' : G K V) (l' : L K V)
+    (hg : GI g) (hl : LI g.now l) (hpc : l.pc = .setStore) (hs : tstep t g l c = some (g', l')) : LI g.now l' := by
+  have hnow := hg.wf.now0
+  obtain ⟨h1, h2, h3, h4, h5, h6, h7, h8⟩ := hl
+  simp only [tstep, hpc] at hs
+  li_auto hs
+
+theorem li_self_getLoad (t : Tid) (g : G K V) (l : L K V) (c : Choice K V) (g' : G K V) (l' : L K V)
+    (hg : GI g) (hl : LI g.now l) (hpc : l.pc = .getLoad) (hs : tstep t g l c = some (g', l')) : LI g.now l' := by
+  have hnow := hg.wf.now0
+  obtain ⟨h1, h2, h3, h4, h5, h6, h7, h8⟩ := hl
+  simp only [tstep, hpc] at hs
+  li_auto hs
+  rename_i k op x i hk ho hld
+  have := load_true _ _ _ hld
+  rw [hg.get k, lget]
+
+  simp only [view, this]
+
+  by_cases he : TTL.expired i.e g.now = true <;> simp [he]
+
+theorem li_self_getChkClock (t : Tid) (g : G K V) (l : L K V) (c : Choice K V) (g' : G K V) (l' : L K V)
+    (hg : GI g) (hl : LI g.now l) (hpc : l.pc = .getChkClock) (hs : tstep t g l c = some (g', l')) : LI g.now l' := by
+  have hnow := hg.wf.now0
+  obtain ⟨h1, h2, h3, h4, h5, h6, h7, h8⟩ := hl
+  simp only [tstep, hpc] at hs
+  li_auto hs
+
+theorem li_self_getCompute (t : Tid) (g : G K V) (l : L K V) (c : Choice K V) (g' : G K V) (l' : L K V)
+    (hg : GI g) (hl : LI g.now l) (hpc : l.pc = .getCompute) (hs : tstep t g l c = some (g', l')) : LI g.now l' := by
+  have hnow := hg.wf.now0
+  obtain ⟨h1, h2, h3, h4, h5, h6, h7, h8⟩ := hl
+  simp only [tstep, hpc] at hs
+  li_auto hs
+
+theorem li_self_rmw (t : Tid) (g : G K V) (l : L K V) (c : Choice K V) (g' : G K V) (l' : L K V)
+    (hg : GI g) (hl : LI g.now l) (hpc : l.pc = .rmw) (hs : tstep t g l c = some (g', l')) : LI g.now l' := by
+  have hnow := hg.wf.now0
+  obtain ⟨h1, h2, h3, h4, h5, h6, h7, h8⟩ := hl
+  simp only [tstep, hpc] at hs
+  li_auto hs
+
+theorem li_self_gdCompute (t : Tid) (g : G K V) (l : L K V) (c : Choice K V) (g' : G K V) (l' : L K V)
+    (hg : GI g) (hl : LI g.now l) (hpc : l.pc = .gdCompute) (hs : tstep t g l c = some (g', l')) : LI g.now l' := by
+  have hnow := hg.wf.now0
+  obtain ⟨h1, h2, h3, h4, h5, h6, h7, h8⟩ := hl
+  simp only [tstep, hpc] at hs
+  li_auto hs
+
+theorem li_self_gdReadCb (t : Tid) (g : G K V) (l : L K V) (c : Choice K V) (g' : G K V) (l' : L K V)
+    (hg : GI g) (hl : LI g.now l) (hpc : l.pc = .gdReadCb) (hs : tstep t g l c = some (g', l')) : LI g.now l' := by
+  have hnow := hg.wf.now0
+  obtain ⟨h1, h2, h3, h4, h5, h6, h7, h8⟩ := hl
+  simp only [tstep, hpc] at hs
+  li_auto hs
+
+theorem li_self_gdFire (t : Tid) (g : G K V) (l : L K V) (c : Choice K V) (g' : G K V) (l' : L K V)
+    (hg : GI g) (hl : LI g.now l) (hpc : l.pc = .gdFire) (hs : tstep t g l c = some (g', l')) : LI g.now l' := by
+  have hnow := hg.wf.now0
+  obtain ⟨h1, h2, h3, h4, h5, h6, h7, h8⟩ := hl
+  simp only [tstep, hpc] at hs
+  li_auto hs
+
+theorem li_self_deReadCb (t : Tid) (g : G K V) (l : L K V) (c : Choice K V) (g' : G K V) (l' : L K V)
+    (hg : GI g) (hl : LI g.now l) (hpc : l.pc = .deReadCb) (hs : tstep t g l c = some (g', l')) : LI g.now l' := by
+  have hnow := hg.wf.now0
+  obtain ⟨h1, h2, h3, h4, h5, h6, h7, h8⟩ := hl
+  simp only [tstep, hpc] at hs
+  li_auto hs
+
+theorem li_self_deReadClock (t : Tid) (g : G K V) (l : L K V) (c : Choice K V) (g' : G K V) (l' : L K V)
+    (hg : GI g) (hl : LI g.now l) (hpc : l.pc = .deReadClock) (hs : tstep t g l c = some (g', l')) : LI g.now l' := by
+  have hnow := hg.wf.now0
+  obtain ⟨h1, h2, h3, h4, h5, h6, h7, h8⟩ := hl
+  simp only [tstep, hpc] at hs
+  li_auto hs
+
+theorem li_self_deVisit (t : Tid) (g : G K V) (l : L K V) (c : Choice K V) (g' : G K V) (l' : L K V)
+    (hg : GI g) (hl : LI g.now l) (hpc : l.pc = .deVisit) (hs : tstep t g l c = some (g', l')) : LI g.now l' := by
+  have hnow := hg.wf.now0
+  obtain ⟨h1, h2, h3, h4, h5, h6, h7, h8⟩ := hl
+  simp only [tstep, hpc] at hs
+  li_auto hs
+
+theorem li_self_deCompute (t : Tid) (g : G K V) (l : L K V) (c : Choice K V) (g' : G K V) (l' : L K V)
+    (hg : GI g) (hl : LI g.now l) (hpc : l.pc = .deCompute) (hs : tstep t g l c = some (g', l')) : LI g.now l' := by
+  have hnow := hg.wf.now0
+  obtain ⟨h1, h2, h3, h4, h5, h6, h7, h8⟩ := hl
+  simp only [tstep, hpc] at hs
+  li_auto hs
+  intro a b h
+  rcases h with h | h
+  · exact Or.inl (h8 a b h)
+  · exact Or.inr h
+
+theorem li_self_deFire (t : Tid) (g : G K V) (l : L K V) (c : Choice K V) (g' : G K V) (l' : L K V)
+    (hg : GI g) (hl : LI g.now l) (hpc : l.pc = .deFire) (hs : tstep t g l c = some (g', l')) : LI g.now l' := by
+  have hnow := hg.wf.now0
+  obtain ⟨h1, h2, h3, h4, h5, h6, h7, h8⟩ := hl
+  simp only [tstep, hpc] at hs
+  li_auto hs
+
+theorem li_self_clClear (t : Tid) (g : G K V) (l : L K V) (c : Choice K V) (g' : G K V) (l' : L K V)
+    (hg : GI g) (hl : LI g.now l) (hpc : l.pc = .clClear) (hs : tstep t g l c = some (g', l')) : LI g.now l' := by
+  have hnow := hg.wf.now0
+  obtain ⟨h1, h2, h3, h4, h5, h6, h7, h8⟩ := hl
+  simp only [tstep, hpc] at hs
+  li_auto hs
+
+theorem li_self_cntSize (t : Tid) (g : G K V) (l : L K V) (c : Choice K V) (g' : G K V) (l' : L K V)
+    (hg : GI g) (hl : LI g.now l) (hpc : l.pc = .cntSize) (hs : tstep t g l c = some (g', l')) : LI g.now l' := by
+  have hnow := hg.wf.now0
+  obtain ⟨h1, h2, h3, h4, h5, h6, h7, h8⟩ := hl
+  simp only [tstep, hpc] at hs
+  li_auto hs
+
+theorem li_self_sdStore (t : Tid) (g : G K V) (l : L K V) (c : Choice K V) (g' : G K V) (l' : L K V)
+    (hg : GI g) (hl : LI g.now l) (hpc : l.pc = .sdStore) (hs : tstep t g l c = some (g', l')) : LI g.now l' := by
+  have hnow := hg.wf.now0
+  obtain ⟨h1, h2, h3, h4, h5, h6, h7, h8⟩ := hl
+  simp only [tstep, hpc] at hs
+  li_auto hs
+
+theorem li_self_scStore (t : Tid) (g : G K V) (l : L K V) (c : Choice K V) (g' : G K V) (l' : L K V)
+    (hg : GI g) (hl : LI g.now l) (hpc : l.pc = .scStore) (hs : tstep t g l c = some (g', l')) : LI g.now l' := by
+  have hnow := hg.wf.now0
+  obtain ⟨h1, h2, h3, h4, h5, h6, h7, h8⟩ := hl
+  simp only [tstep, hpc] at hs
+  li_auto hs
+
+theorem li_self_ret (t : Tid) (g : G K V) (l : L K V) (c : Choice K V) (g' : G K V) (l' : L K V)
+    (hg : GI g) (hl : LI g.now l) (hpc : l.pc = .ret) (hs : tstep t g l c = some (g', l')) : LI g.now l' := by
+  have hnow := hg.wf.now0
+  obtain ⟨h1, h2, h3, h4, h5, h6, h7, h8⟩ := hl
+  simp only [tstep, hpc] at hs
+  li_auto hs
+
+theorem li_self (t : Tid) (g : G K V) (l : L K V) (c : Choice K V) (g' : G K V) (l' : L K V)
+    (hg : GI g) (hl : LI g.now l) (hs : tstep t g l c = some (g', l')) : LI g'.now l' := by
+  rw [tstep_now t g l c g' l' hs]
+  cases hpc : l.pc
+  case idle =>
+    simp only [tstep, hpc] at hs
+    split at hs
+    · simp only [Option.some.injEq, Prod.mk.injEq] at hs
+      obtain ⟨rfl, rfl⟩ := hs
+      exact li_startOp _ _ _
+    · cases hs
+  case setReadDflt => exact li_self_setReadDflt t g l c g' l' hg hl hpc hs
+  case setReadClock => exact li_self_setReadClock t g l c g' l' hg hl hpc hs
+  case setStore => exact li_self_setStore t g l c g' l' hg hl hpc hs
+  case getLoad => exact li_self_getLoad t g l c g' l' hg hl hpc hs
+  case getChkClock => exact li_self_getChkClock t g l c g' l' hg hl hpc hs
+  case getCompute => exact li_self_getCompute t g l c g' l' hg hl hpc hs
+  case rmw => exact li_self_rmw t g l c g' l' hg hl hpc hs
+  case gdCompute => exact li_self_gdCompute t g l c g' l' hg hl hpc hs
+  case gdReadCb => exact li_self_gdReadCb t g l c g' l' hg hl hpc hs
+  case gdFire => exact li_self_gdFire t g l c g' l' hg hl hpc hs
+  case deReadCb => exact li_self_deReadCb t g l c g' l' hg hl hpc hs
+  case deReadClock => exact li_self_deReadClock t g l c g' l' hg hl hpc hs
+  case deVisit => exact li_self_deVisit t g l c g' l' hg hl hpc hs
+  case deCompute => exact li_self_deCompute t g l c g' l' hg hl hpc hs
+  case deFire => exact li_self_deFire t g l c g' l' hg hl hpc hs
+  case clClear => exact li_self_clClear t g l c g' l' hg hl hpc hs
+  case cntSize => exact li_self_cntSize t g l c g' l' hg hl hpc hs
+  case sdStore => exact li_self_sdStore t g l c g' l' hg hl hpc hs
+  case scStore => exact li_self_scStore t g l c g' l' hg hl hpc hs
+  case ret => exact li_self_ret t g l c g' l' hg hl hpc hs
+
+/-! ## The global invariant is preserved by every thread step -/
+
+/-- the pcs whose step writes a shared (or ghost shared) variable -/
+def sharedPc : Pc → Bool
+  | .setStore | .getCompute | .rmw | .gdCompute | .gdFire | .deCompute | .deFire | .clClear | .sdStore | .scStore => true
+  | _ => false
+
+/-- every other step is purely local -/
+theorem tstep_local (t : Tid) (g : G K V) (l : L K V) (c : Choice K V) (g' : G K V) (l' : L K V)
+    (hp : sharedPc l.pc = false) (hs : tstep t g l c = some (g', l')) : g' = g := by
+  cases hpc : l.pc <;> rw [hpc] at hp <;> simp only [sharedPc, reduceCtorEq] at hp <;>
+    simp only [tstep, hpc] at hs <;>
+    (repeat' split at hs) <;>
+    simp only [Option.some.injEq, reduceCtorEq, Prod.mk.injEq] at hs <;>
+    obtain ⟨rfl, rfl⟩ := hs <;> rfl
+
+/-- the closure `get` passes to `Compute` (double check, or delete) -/
+def getFn (s : Cache.St K V) : Option (Item V) → Item V × Bool := fun o =>
+  match o with
+  | some i' => if !Cache.expired s i' then (i', false) else (default, true)
+  | none => (default, true)
+
+theorem getFn_spec (s : Cache.St K V) (m : AMap K (Item V)) (k : K) :
+    m.compute k (getFn s) =
+      match m.get k with
+      | none => (m, (default, false))
+      | some i => if TTL.expired i.e s.now then (m.erase k, (i, false)) else (m.set k i, (i, true)) := by
+  cases hg : m.get k with
+  | none => simp [AMap.compute, hg, getFn]
+  | some i =>
+    by_cases he : TTL.expired i.e s.now = true <;> simp [AMap.compute, hg, getFn, expired_eq, he]
+
+theorem sim_getFn (s : Cache.St K V) (a : TTL.St K V) (h : Sim s a) (k : K) :
+    Sim { s with items := (s.items.compute k (getFn s)).1 } a := by
+  rw [getFn_spec s s.items]
+  cases hg : s.items.get k with
+  | none => exact h
+  | some i =>
+    by_cases he : TTL.expired i.e s.now = true
+    · simp only [he, if_true]
+      exact sim_erase_dead s a h k (by simp [lget, hg, he])
+    · simp only [he, Bool.false_eq_true, if_false]
+      exact sim_restore s a h k i hg
+
+theorem sweepFn_spec (pn : Int) (m : AMap K (Item V)) (k : K) :
+    (m.compute k (Cache.sweepFn pn)).1 =
+      match m.get k with
+      | none => m
+      | some c => if TTL.expired c.e pn then m.erase k else m.set k c := by
+  cases hg : m.get k with
+  | none => simp [AMap.compute, hg, Cache.sweepFn]
+  | some c =>
+    by_cases he : TTL.expired c.e pn = true <;> simp [AMap.compute, hg, Cache.sweepFn, item_expiredWithNow_eq, he]
+
+theorem sim_sweepFn (s : Cache.St K V) (a : TTL.St K V) (h : Sim s a) (k : K) (pn : Int) (hpn : pn ≤ s.now) :
+    Sim { s with items := (s.items.compute k (Cache.sweepFn pn)).1 } a := by
+  rw [sweepFn_spec]
+  cases hg : s.items.get k with
+  | none => exact h
+  | some i =>
+    by_cases he : TTL.expired i.e pn = true
+    · simp only [he, if_true]
+      exact sim_erase_dead s a h k (by simp [lget, hg, expired_mono i.e pn s.now hpn he])
+    · simp only [he, Bool.false_eq_true, if_false]
+      exact sim_restore s a h k i hg
+
+/-- the read-modify-write calls change nothing but the map -/
+theorem rmw_frame (s : Cache.St K V) (op : COp K V) (h : opCls op = .rmw) :
+    (Cache.step s (toSpec op)).1.now = s.now ∧ (Cache.step s (toSpec op)).1.dflt = s.dflt ∧
+    (Cache.step s (toSpec op)).1.cb = s.cb := by
+  cases op <;> simp only [opCls, reduceCtorEq] at h <;> simp only [toSpec, Cache.step] <;>
+    (repeat' split) <;> first | exact ⟨rfl, rfl, rfl⟩ | simp
+
+theorem sim_frame (s s' : Cache.St K V) (a : TTL.St K V) (h : Sim s' a) (h1 : s'.now = s.now) (h2 : s'.dflt = s.dflt)
+    (h3 : s'.cb = s.cb) : Sim { s with items := s'.items } a := by
+  cases s'; cases s; simp only at h1 h2 h3; subst h1; subst h2; subst h3; exact h
+
+theorem gad_fst (s : Cache.St K V) (k : K) :
+    (Cache.getAndDelete s k).1 = { s with items := (s.items.compute k fun _ => (default, true)).1 } := by
+  unfold Cache.getAndDelete
+  cases s.items.get k <;> rfl
+
+
+theorem li_e_nonneg (now : Int) (l : L K V) (hl : LI now l) (hpc : l.pc = .setStore) : 0 ≤ l.e := by
+  obtain ⟨t0, h0, _, he⟩ := hl.setE hpc
+  rw [he]; split <;> omega
+
+theorem gi_setStore (t : Tid) (g : G K V) (l : L K V) (c : Choice K V) (g' : G K V) (l' : L K V)
+    (hg : GI g) (hl : LI g.now l) (hpc : l.pc = .setStore) (hs : tstep t g l c = some (g', l')) : GI g' := by
+  have he0 := li_e_nonneg _ l hl hpc
+  simp only [tstep, hpc] at hs
+  split at hs
+  · rename_i k v d ho
+    simp only [Option.some.injEq, Prod.mk.injEq] at hs
+    obtain ⟨rfl, rfl⟩ := hs
+    by_cases he : TTL.expired l.e g.now = true
+    · simp only [he, if_true]
+      exact sim_store_dead (view g) g.abs hg k ⟨v, l.e⟩ he
+    · simp only [he, Bool.false_eq_true, if_false]
+      exact sim_store (view g) g.abs hg k ⟨v, l.e⟩ he0 (by simpa [view] using he)
+  · cases hs
+
+theorem gi_getCompute (t : Tid) (g : G K V) (l : L K V) (c : Choice K V) (g' : G K V) (l' : L K V)
+    (hg : GI g) (hpc : l.pc = .getCompute) (hs : tstep t g l c = some (g', l')) : GI g' := by
+  simp only [tstep, hpc] at hs
+  split at hs
+  · rename_i k op hk ho
+    simp only [Option.some.injEq, Prod.mk.injEq] at hs
+    obtain ⟨rfl, rfl⟩ := hs
+    exact sim_getFn (view g) g.abs hg k
+  · cases hs
+
+theorem gi_rmw (t : Tid) (g : G K V) (l : L K V) (c : Choice K V) (g' : G K V) (l' : L K V)
+    (hg : GI g) (hl : LI g.now l) (hpc : l.pc = .rmw) (hs : tstep t g l c = some (g', l')) : GI g' := by
+  obtain ⟨op', ho', hc⟩ := hl.cls .rmw (by rw [hpc]; rfl)
+  simp only [tstep, hpc] at hs
+  split at hs
+  · rename_i op ho
+    have hop : op = op' := by rw [ho] at ho'; exact Option.some.inj ho'
+    subst hop
+    simp only [Option.some.injEq, Prod.mk.injEq] at hs
+    obtain ⟨rfl, rfl⟩ := hs
+    obtain ⟨f1, f2, f3⟩ := rmw_frame (view g) op hc
+    exact sim_frame (view g) _ _ (step_sim (view g) g.abs hg (toSpec op)).1 f1 f2 f3
+  · cases hs
+
+theorem opKey_gd (l : L K V) (op : COp K V) (k : K) (ho : l.op = some op) (hc : opCls op = .gd) (hk : opKey l = some k) :
+    op = .getAndDelete k ∨ op = .delete k := by
+  cases op <;> simp only [opCls, reduceCtorEq] at hc <;> simp [opKey, ho] at hk <;> simp [hk]
+
+theorem gi_gdCompute (t : Tid) (g : G K V) (l : L K V) (c : Choice K V) (g' : G K V) (l' : L K V)
+    (hg : GI g) (hl : LI g.now l) (hpc : l.pc = .gdCompute) (hs : tstep t g l c = some (g', l')) : GI g' := by
+  obtain ⟨op', ho', hc⟩ := hl.cls .gd (by rw [hpc]; rfl)
+  simp only [tstep, hpc] at hs
+  split at hs
+  · rename_i k op hk ho
+    have hop : op = op' := by rw [ho] at ho'; exact Option.some.inj ho'
+    subst hop
+    simp only [Option.some.injEq, Prod.mk.injEq] at hs
+    obtain ⟨rfl, rfl⟩ := hs
+    rcases opKey_gd l op k ho hc hk with rfl | rfl
+    · have := (step_sim (view g) g.abs hg (.getAndDelete k)).1
+      simp only [Cache.step, gad_fst] at this
+      exact this
+    · have := (step_sim (view g) g.abs hg (.delete k)).1
+      simp only [Cache.step, gad_fst] at this
+      exact this
+  · cases hs
+
+theorem gi_deCompute (t : Tid) (g : G K V) (l : L K V) (c : Choice K V) (g' : G K V) (l' : L K V)
+    (hg : GI g) (hl : LI g.now l) (hpc : l.pc = .deCompute) (hs : tstep t g l c = some (g', l')) : GI g' := by
+  have hp := hl.pass (by rw [hpc]; rfl)
+  simp only [tstep, hpc] at hs
+  split at hs
+  · rename_i k i hcur
+    simp only [Option.some.injEq, Prod.mk.injEq] at hs
+    obtain ⟨rfl, rfl⟩ := hs
+    exact sim_sweepFn (view g) g.abs hg k l.passNow hp
+  · cases hs
+
+theorem gi_tstep (t : Tid) (g : G K V) (l : L K V) (c : Choice K V) (g' : G K V) (l' : L K V)
+    (hg : GI g) (hl : LI g.now l) (hs : tstep t g l c = some (g', l')) : GI g' := by
+  by_cases hsh : sharedPc l.pc = false
+  · rw [tstep_local t g l c g' l' hsh hs]; exact hg
+  · cases hpc : l.pc <;> rw [hpc] at hsh <;> simp only [sharedPc, not_true_eq_false] at hsh
+    case setStore => exact gi_setStore t g l c g' l' hg hl hpc hs
+    case getCompute => exact gi_getCompute t g l c g' l' hg hpc hs
+    case rmw => exact gi_rmw t g l c g' l' hg hl hpc hs
+    case gdCompute => exact gi_gdCompute t g l c g' l' hg hl hpc hs
+    case deCompute => exact gi_deCompute t g l c g' l' hg hl hpc hs
+    case gdFire =>
+      simp only [tstep, hpc] at hs
+      split at hs <;> simp only [Option.some.injEq, Prod.mk.injEq] at hs <;> obtain ⟨rfl, rfl⟩ := hs <;> exact hg
+    case deFire =>
+      simp only [tstep, hpc] at hs
+      split at hs <;> simp only [Option.some.injEq, Prod.mk.injEq] at hs <;> obtain ⟨rfl, rfl⟩ := hs <;> exact hg
+    case clClear =>
+      simp only [tstep, hpc, Option.some.injEq, Prod.mk.injEq] at hs
+      obtain ⟨rfl, rfl⟩ := hs
+      exact (step_sim (view g) g.abs hg .clear).1
+    case sdStore =>
+      simp only [tstep, hpc] at hs
+      split at hs
+      · simp only [Option.some.injEq, Prod.mk.injEq] at hs
+        obtain ⟨rfl, rfl⟩ := hs
+        exact (step_sim (view g) g.abs hg (.setDefaultExpiration _)).1
+      · cases hs
+    case scStore =>
+      simp only [tstep, hpc] at hs
+      split at hs
+      · simp only [Option.some.injEq, Prod.mk.injEq] at hs
+        obtain ⟨rfl, rfl⟩ := hs
+        exact (step_sim (view g) g.abs hg (.setEvictedCallback _)).1
+      · cases hs
+
+/-! ## Lifting to the global transition system (Owicki–Gries) -/
+
+theorem gi_init (dflt : Int) (cb : Option Nat) (now : Int) (h0 : 0 ≤ now) : GI (init (K := K) (V := V) dflt cb now).g := by
+  refine ⟨⟨AMap.WF_nil, ?_, h0⟩, AMap.WF_nil, rfl, rfl, rfl, ?_⟩
+  · intro p hp; cases hp
+  · intro k; rfl
+
+/-- the invariant of the concurrent system: the global simulation relation and every thread's local invariant -/
+def Inv (s : St K V) : Prop := GI s.g ∧ ∀ u, LI s.g.now (s.l u)
+
+theorem inv_init (dflt : Int) (cb : Option Nat) (now : Int) (h0 : 0 ≤ now) : Inv (init (K := K) (V := V) dflt cb now) :=
+  ⟨gi_init dflt cb now h0, fun _ => li_init _⟩
+
+/-- a clock tick preserves the simulation (the spec's `tick` drops what has just expired) -/
+theorem gi_tick (g : G K V) (δ : Nat) (hg : GI g) :
+    GI { g with now := g.now + δ, abs := (TTL.step g.abs (.tick δ)).1 } :=
+  (step_sim (view g) g.abs hg (.tick δ)).1
+
+/-- another thread's step does not disturb a thread's local invariant: locals are private, and the only
+global the local invariant mentions is the clock, which no thread step changes -/
+theorem li_other (t : Tid) (g : G K V) (l m : L K V) (c : Choice K V) (g' : G K V) (l' : L K V)
+    (hm : LI g.now m) (hs : tstep t g l c = some (g', l')) : LI g'.now m := by
+  rw [tstep_now t g l c g' l' hs]; exact hm
+
+theorem inv_step (s s' : St K V) (w : Option Tid) (c : Choice K V) (δ : Nat) (h : Inv s)
+    (hs : step s w c δ = some s') : Inv s' := by
+  unfold step at hs
+  cases w with
+  | none =>
+    simp only [Option.some.injEq] at hs; subst hs
+    exact ⟨gi_tick s.g δ h.1, fun u => li_mono s.g.now _ _ (by simp only; omega) (h.2 u)⟩
+  | some t =>
+    simp only at hs
+    split at hs
+    · cases hs
+    · rename_i g' l' heq
+      simp only [Option.some.injEq] at hs; subst hs
+      refine ⟨gi_tstep t s.g (s.l t) c g' l' h.1 (h.2 t) heq, fun u => ?_⟩
+      by_cases hu : u = t
+      · subst hu
+        simpa using li_self u s.g (s.l u) c g' l' h.1 (h.2 u) heq
+      · simpa [hu] using li_other t s.g (s.l t) (s.l u) c g' l' (h.2 u) heq
+
+/-- `GI` is preserved by every step from a state satisfying the invariant -/
+theorem gi_step (s s' : St K V) (w : Option Tid) (c : Choice K V) (δ : Nat) (h : Inv s)
+    (hs : step s w c δ = some s') : GI s'.g := (inv_step s s' w c δ h hs).1
+
+theorem inv_run (sched : List (Option Tid × Choice K V × Nat)) :
+    ∀ (s s' : St K V), Inv s → run s sched = some s' → Inv s' := by
+  induction sched with
+  | nil => intro s s' h hr; simp only [run, Option.some.injEq] at hr; subst hr; exact h
+  | cons x rest ih =>
+    obtain ⟨w, c, δ⟩ := x
+    intro s s' h hr
+    simp only [run] at hr
+    split at hr
+    · rename_i s1 hs1
+      exact ih s1 s' (inv_step s s1 w c δ h hs1) hr
+    · cases hr
+
+theorem inv_reach (dflt : Int) (cb : Option Nat) (now : Int) (s : St K V) (h0 : 0 ≤ now)
+    (hr : Reach dflt cb now s) : Inv s := by
+  obtain ⟨sched, hs⟩ := hr
+  exact inv_run sched _ s (inv_init dflt cb now h0) hs
+
+theorem gi_reach (dflt : Int) (cb : Option Nat) (now : Int) (s : St K V) (hr : Reach dflt cb now s) (h0 : 0 ≤ now) :
+    GI s.g := (inv_reach dflt cb now s h0 hr).1
+
+/-! ## Linearization points -/
+
+/-- the pcs whose step is a linearization point -/
+def lpPc : Pc → Bool
+  | .setStore | .rmw | .gdCompute | .clClear | .sdStore | .scStore | .getCompute => true
+  | _ => false
+
+/-- **Non-linearization steps do not change the abstract state.** -/
+theorem abs_frame (t : Tid) (g : G K V) (l : L K V) (c : Choice K V) (g' : G K V) (l' : L K V)
+    (hp : lpPc l.pc = false) (hs : tstep t g l c = some (g', l')) : g'.abs = g.abs := by
+  cases hpc : l.pc <;> rw [hpc] at hp <;> simp only [lpPc, reduceCtorEq] at hp <;>
+    simp only [tstep, hpc] at hs <;>
+    (repeat' split at hs) <;>
+    simp only [Option.some.injEq, reduceCtorEq, Prod.mk.injEq] at hs <;>
+    obtain ⟨rfl, rfl⟩ := hs <;> rfl
+
+/-- what a linearization point (other than `Set`'s `Store`) must establish: the result assigned is the spec's
+answer on the ghost abstract state, and the ghost abstract state advances by the spec step -/
+def LPOk (g : G K V) (op : COp K V) (g' : G K V) (l' : L K V) : Prop :=
+  ∃ res, l'.result = some res ∧ logical res = (TTL.step g.abs (toSpec op)).2.1 ∧
+    g'.abs = (TTL.step g.abs (toSpec op)).1
+
+theorem lp_rmw (t : Tid) (g : G K V) (l : L K V) (c : Choice K V) (g' : G K V) (l' : L K V) (op : COp K V)
+    (hg : GI g) (hl : LI g.now l) (hpc : l.pc = .rmw) (ho : l.op = some op)
+    (hs : tstep t g l c = some (g', l')) : LPOk g op g' l' := by
+  obtain ⟨op', ho', hc⟩ := hl.cls .rmw (by rw [hpc]; rfl)
+  have hop : op = op' := by rw [ho] at ho'; exact Option.some.inj ho'
+  subst hop
+  simp only [tstep, hpc, ho, Option.some.injEq, Prod.mk.injEq] at hs
+  obtain ⟨rfl, rfl⟩ := hs
+  refine ⟨_, rfl, ?_, rfl⟩
+  have := (step_sim (view g) g.abs hg (toSpec op)).2.1
+  cases op <;> simp only [opCls, reduceCtorEq] at hc <;> exact this
+
+theorem lp_gdCompute (t : Tid) (g : G K V) (l : L K V) (c : Choice K V) (g' : G K V) (l' : L K V) (op : COp K V)
+    (hg : GI g) (hl : LI g.now l) (hpc : l.pc = .gdCompute) (ho : l.op = some op)
+    (hs : tstep t g l c = some (g', l')) : LPOk g op g' l' := by
+  obtain ⟨op', ho', hc⟩ := hl.cls .gd (by rw [hpc]; rfl)
+  have hop : op = op' := by rw [ho] at ho'; exact Option.some.inj ho'
+  subst hop
+  simp only [tstep, hpc] at hs
+  split at hs
+  · rename_i k op1 hk ho1
+    have hop : op = op1 := by rw [ho] at ho1; exact Option.some.inj ho1
+    subst hop
+    simp only [Option.some.injEq, Prod.mk.injEq] at hs
+    obtain ⟨rfl, rfl⟩ := hs
+    rcases opKey_gd l op k ho hc hk with rfl | rfl
+    · refine ⟨_, rfl, ?_, rfl⟩
+      simp only [toSpec, TTL.step, hg.get k, lget, view, expired_eq]
+      cases hgk : g.items.get k with
+      | none => rfl
+      | some i => by_cases he : TTL.expired i.e g.now = true <;> simp [he, logical]
+    · exact ⟨_, rfl, rfl, rfl⟩
+  · cases hs
+
+theorem compute_congr {α : Type} [Inhabited α] (m : AMap K α) (k : K) (f f' : Option α → α × Bool)
+    (h : ∀ o, f o = f' o) : m.compute k f = m.compute k f' := by
+  have : f = f' := funext h
+  rw [this]
+
+theorem opKey_get (l : L K V) (op : COp K V) (k : K) (ho : l.op = some op) (hc : opCls op = .get) (hk : opKey l = some k) :
+    op = .get k ∨ op = .getWithExpiration k ∨ op = .getWithTTL k := by
+  cases op <;> simp only [opCls, reduceCtorEq] at hc <;> simp [opKey, ho] at hk <;> simp [hk]
+
+theorem lp_getCompute (t : Tid) (g : G K V) (l : L K V) (c : Choice K V) (g' : G K V) (l' : L K V) (op : COp K V)
+    (hg : GI g) (hl : LI g.now l) (hpc : l.pc = .getCompute) (ho : l.op = some op)
+    (hs : tstep t g l c = some (g', l')) : LPOk g op g' l' := by
+  obtain ⟨op', ho', hc⟩ := hl.cls .get (by rw [hpc]; rfl)
+  have hop : op = op' := by rw [ho] at ho'; exact Option.some.inj ho'
+  subst hop
+  simp only [tstep, hpc] at hs
+  split at hs
+  · rename_i k op1 hk ho1
+    have hop : op = op1 := by rw [ho] at ho1; exact Option.some.inj ho1
+    subst hop
+    rw [compute_congr (f' := getFn (view g)), getFn_spec] at hs
+    case h => intro o; cases o <;> rfl
+    simp only [Option.some.injEq, Prod.mk.injEq] at hs
+    obtain ⟨rfl, rfl⟩ := hs
+    have hab := hg.get k
+    have hnow := hg.now
+    simp only [lget, view] at hab hnow
+    simp only [view]
+    cases hgk : g.items.get k with
+    | none =>
+      rw [hgk] at hab
+      simp only at hab
+      rcases opKey_get l op k ho hc hk with rfl | rfl | rfl <;>
+        exact ⟨_, rfl, by simp [toSpec, TTL.step, hab, missResult, logical],
+          by simp [toSpec, TTL.step, hab]⟩
+    | some i =>
+      have hpos : 0 ≤ i.e := hg.wf.epos (k, i) (AMap.mem_of_get _ _ _ hgk)
+      rw [hgk] at hab
+      by_cases he : TTL.expired i.e g.now = true
+      · simp only [he, if_true] at hab ⊢
+        rcases opKey_get l op k ho hc hk with rfl | rfl | rfl <;>
+          exact ⟨_, rfl, by simp [toSpec, TTL.step, hab, missResult, logical],
+            by simp [toSpec, TTL.step, hab]⟩
+      · simp only [he, Bool.false_eq_true, if_false] at hab ⊢
+        rcases opKey_get l op k ho hc hk with rfl | rfl | rfl
+        · exact ⟨_, rfl, by simp [toSpec, TTL.step, hab, hitResult, logical],
+            by simp [toSpec, TTL.step, hab]⟩
+        · refine ⟨_, rfl, ?_, by simp [toSpec, TTL.step, hab]⟩
+          simp only [toSpec, TTL.step, hab, hitResult, logical, if_true]
+          by_cases h0 : i.e > 0
+          · simp [h0]
+          · have : i.e = 0 := by omega
+            simp [this]
+        · exact ⟨_, rfl, by simp [toSpec, TTL.step, hab, hitResult, logical, hnow, NoExpiration_eq],
+            by simp [toSpec, TTL.step, hab]⟩
+  · cases hs
+
+theorem lp_simple (t : Tid) (g : G K V) (l : L K V) (c : Choice K V) (g' : G K V) (l' : L K V) (op : COp K V)
+    (hl : LI g.now l) (hpc : l.pc = .clClear ∨ l.pc = .sdStore ∨ l.pc = .scStore) (ho : l.op = some op)
+    (hs : tstep t g l c = some (g', l')) : LPOk g op g' l' := by
+  rcases hpc with hpc | hpc | hpc
+  · obtain ⟨op', ho', hc⟩ := hl.cls .clear (by rw [hpc]; rfl)
+    have hop : op = op' := by rw [ho] at ho'; exact Option.some.inj ho'
+    subst hop
+    simp only [tstep, hpc, Option.some.injEq, Prod.mk.injEq] at hs
+    obtain ⟨rfl, rfl⟩ := hs
+    cases op <;> simp only [opCls, reduceCtorEq] at hc
+    exact ⟨_, rfl, rfl, rfl⟩
+  · simp only [tstep, hpc, ho] at hs
+    split at hs
+    · rename_i d hd
+      cases hd
+      simp only [Option.some.injEq, Prod.mk.injEq] at hs
+      obtain ⟨rfl, rfl⟩ := hs
+      exact ⟨_, rfl, rfl, rfl⟩
+    · cases hs
+  · simp only [tstep, hpc, ho] at hs
+    split at hs
+    · rename_i d hd
+      cases hd
+      simp only [Option.some.injEq, Prod.mk.injEq] at hs
+      obtain ⟨rfl, rfl⟩ := hs
+      exact ⟨_, rfl, rfl, rfl⟩
+    · cases hs
+
+/-- the abstract effect of `Set`'s `Store`: "store with the instant computed from the earlier clock reading `t0`" -/
+def SetStoreSpec (g : G K V) (l : L K V) (op : COp K V) (g' : G K V) : Prop :=
+  ∃ k v d t0, op = .set k v d ∧ 0 ≤ t0 ∧ t0 ≤ g.now ∧ l.e = (if l.d > 0 then t0 + l.d else 0) ∧
+    (d ≠ TTL.DefaultExpiration → l.d = d ∧ ∀ dflt, l.e = TTL.expiration d dflt t0) ∧
+    g'.abs = { g.abs with live := if TTL.expired l.e g.now then g.abs.live.erase k else g.abs.live.set k ⟨v, l.e⟩ }
+
+/-- `Set`'s linearization point is its `Store`.  The stored instant `l.e` was computed from the clock value `t0`
+read earlier in the call (`t0 ≤ now`), so the abstract effect is "store with that instant": a store whose instant
+has already passed is logically an erase.  When the call's TTL argument is not `DefaultExpiration` the instant is
+the spec's `expiration d _ t0`. -/
+theorem lp_setStore (t : Tid) (g : G K V) (l : L K V) (c : Choice K V) (g' : G K V) (l' : L K V) (op : COp K V)
+    (hl : LI g.now l) (hpc : l.pc = .setStore) (ho : l.op = some op)
+    (hs : tstep t g l c = some (g', l')) :
+    l'.result = some .unit ∧ (TTL.step g.abs (toSpec op)).2.1 = .unit ∧ SetStoreSpec g l op g' := by
+  obtain ⟨t0, h0, h1, he⟩ := hl.setE hpc
+  simp only [tstep, hpc, ho] at hs
+  split at hs
+  · rename_i k v d hd
+    cases hd
+    simp only [Option.some.injEq, Prod.mk.injEq] at hs
+    obtain ⟨rfl, rfl⟩ := hs
+    refine ⟨rfl, rfl, k, v, d, t0, rfl, h0, h1, he, ?_, rfl⟩
+    intro hd
+    have := ((hl.setD k v d ho).2 (Or.inr hpc) (by rwa [DefaultExpiration_eq]))
+    refine ⟨this, fun dflt => ?_⟩
+    rw [he, this]
+    simp [TTL.expiration, hd]
+  · cases hs
+
+/-- **Linearization points return the spec's answer**: at every linearization-point pc, from a state satisfying the
+invariants, the assigned result is (logically) the result of the spec step of the call on the ghost abstract
+state, and the ghost abstract state advances by that spec step; for `Set`'s `Store` the abstract effect is
+`SetStoreSpec`. -/
+theorem lp_result (t : Tid) (g : G K V) (l : L K V) (c : Choice K V) (g' : G K V) (l' : L K V) (op : COp K V)
+    (hg : GI g) (hl : LI g.now l) (hlp : lpPc l.pc = true) (ho : l.op = some op)
+    (hs : tstep t g l c = some (g', l')) :
+    ∃ res, l'.result = some res ∧ logical res = (TTL.step g.abs (toSpec op)).2.1 ∧
+      (l.pc ≠ .setStore → g'.abs = (TTL.step g.abs (toSpec op)).1) ∧
+      (l.pc = .setStore → SetStoreSpec g l op g') := by
+  cases hpc : l.pc <;> rw [hpc] at hlp <;> simp only [lpPc, reduceCtorEq] at hlp
+  case setStore =>
+    obtain ⟨h1, h2, h3⟩ := lp_setStore t g l c g' l' op hl hpc ho hs
+    exact ⟨.unit, h1, h2.symm, fun h => absurd rfl h, fun _ => h3⟩
+  case rmw =>
+    obtain ⟨res, h1, h2, h3⟩ := lp_rmw t g l c g' l' op hg hl hpc ho hs
+    exact ⟨res, h1, h2, fun _ => h3, fun h => nomatch h⟩
+  case gdCompute =>
+    obtain ⟨res, h1, h2, h3⟩ := lp_gdCompute t g l c g' l' op hg hl hpc ho hs
+    exact ⟨res, h1, h2, fun _ => h3, fun h => nomatch h⟩
+  case getCompute =>
+    obtain ⟨res, h1, h2, h3⟩ := lp_getCompute t g l c g' l' op hg hl hpc ho hs
+    exact ⟨res, h1, h2, fun _ => h3, fun h => nomatch h⟩
+  case clClear =>
+    obtain ⟨res, h1, h2, h3⟩ := lp_simple t g l c g' l' op hl (Or.inl hpc) ho hs
+    exact ⟨res, h1, h2, fun _ => h3, fun h => nomatch h⟩
+  case sdStore =>
+    obtain ⟨res, h1, h2, h3⟩ := lp_simple t g l c g' l' op hl (Or.inr (Or.inl hpc)) ho hs
+    exact ⟨res, h1, h2, fun _ => h3, fun h => nomatch h⟩
+  case scStore =>
+    obtain ⟨res, h1, h2, h3⟩ := lp_simple t g l c g' l' op hl (Or.inr (Or.inr hpc)) ho hs
+    exact ⟨res, h1, h2, fun _ => h3, fun h => nomatch h⟩
+
+/-! ## Hindsight for the `Get` family -/
+
+/-- the lock-free `Load`: records (ghost) the abstract binding of the key and the clock at this instant; a miss
+returns immediately, and then the key is abstractly absent at this instant; a hit `i` goes on to the clock check,
+and the abstract binding at this instant is `i` unless `i` is already expired -/
+theorem get_load (t : Tid) (g : G K V) (l : L K V) (c : Choice K V) (g' : G K V) (l' : L K V)
+    (hg : GI g) (hpc : l.pc = .getLoad) (hs : tstep t g l c = some (g', l')) :
+    ∃ k op, opKey l = some k ∧ l.op = some op ∧ g' = g ∧ l'.absAtLoad = g.abs.live.get k ∧ l'.nowAtLoad = g.now ∧
+      ((g.items.get k = none ∧ l'.pc = .ret ∧ l'.result = some (missResult op) ∧ l'.absAtLoad = none) ∨
+       (∃ i, g.items.get k = some i ∧ l'.pc = .getChkClock ∧ l'.loaded = some i ∧
+          l'.absAtLoad = if TTL.expired i.e g.now then none else some i)) := by
+  simp only [tstep, hpc] at hs
+  split at hs
+  · rename_i k op hk ho
+    have hab := hg.get k
+    simp only [lget, view] at hab
+    split at hs
+    · rename_i x hld
+      have hgk := load_false _ _ _ hld
+      rw [hgk] at hab
+      simp only [Option.some.injEq, Prod.mk.injEq] at hs
+      obtain ⟨rfl, rfl⟩ := hs
+      exact ⟨k, op, hk, ho, rfl, rfl, rfl, Or.inl ⟨hgk, rfl, rfl, hab⟩⟩
+    · rename_i i hld
+      have hgk := load_true _ _ _ hld
+      rw [hgk] at hab
+      simp only [Option.some.injEq, Prod.mk.injEq] at hs
+      obtain ⟨rfl, rfl⟩ := hs
+      exact ⟨k, op, hk, ho, rfl, rfl, rfl, Or.inr ⟨i, hgk, rfl, rfl, hab⟩⟩
+  · cases hs
+
+/-- **Hindsight**: when a `Get`-family call returns a hit on the loaded item `i` through the clock check, `i` was
+the abstract binding of the key at the instant of the call's `Load` (`l.absAtLoad = some i`, recorded at clock
+`l.nowAtLoad ≤ now`, an instant inside the call); the reported TTL (for `GetWithTTL`) is computed with the clock
+read at this step: the result is `hitResult op i g.now`.  Otherwise the call goes on to the double-checked
+`Compute` (a linearization point). -/
+theorem get_hindsight (t : Tid) (g : G K V) (l : L K V) (c : Choice K V) (g' : G K V) (l' : L K V)
+    (hl : LI g.now l) (hpc : l.pc = .getChkClock) (hs : tstep t g l c = some (g', l')) :
+    g' = g ∧ ∃ i op, l.loaded = some i ∧ l.op = some op ∧ l.nowAtLoad ≤ g.now ∧
+      (l.absAtLoad = if TTL.expired i.e l.nowAtLoad then none else some i) ∧
+      ((TTL.expired i.e g.now = false ∧ l'.pc = .ret ∧ l'.result = some (hitResult op i g.now) ∧
+          l.absAtLoad = some i) ∨
+       (TTL.expired i.e g.now = true ∧ l'.pc = .getCompute ∧ l'.result = l.result)) := by
+  obtain ⟨i, hi, hn, ha⟩ := hl.hind hpc
+  simp only [tstep, hpc] at hs
+  split at hs
+  · rename_i i' op hi' ho
+    have : i' = i := by rw [hi] at hi'; exact (Option.some.inj hi').symm
+    subst this
+    rw [item_expired_eq] at hs
+    by_cases he : TTL.expired i'.e g.now = true
+    · simp only [he, Bool.not_true, Bool.false_eq_true, if_false, Option.some.injEq, Prod.mk.injEq] at hs
+      obtain ⟨rfl, rfl⟩ := hs
+      exact ⟨rfl, i', op, hi, ho, hn, ha, Or.inr ⟨he, rfl, rfl⟩⟩
+    · have he' : TTL.expired i'.e g.now = false := by simpa using he
+      simp only [he', Bool.not_false, if_true, Option.some.injEq, Prod.mk.injEq] at hs
+      obtain ⟨rfl, rfl⟩ := hs
+      refine ⟨rfl, i', op, hi, ho, hn, ha, Or.inl ⟨he', rfl, rfl, ?_⟩⟩
+      have : TTL.expired i'.e l.nowAtLoad = false := by
+        cases h : TTL.expired i'.e l.nowAtLoad
+        · rfl
+        · rw [expired_mono _ _ _ hn h] at he'; cases he'
+      rw [ha, this]; simp
+  · cases hs
+
+/-! ## Callbacks (C06) -/
+
+theorem compute_delete (m : AMap K (Item V)) (k : K) :
+    (m.compute k fun _ => (default, true)).1 = m.erase k := by
+  cases hg : m.get k with
+  | none => simp [AMap.compute, hg, AMap.erase_of_get_none _ _ hg]
+  | some i => simp [AMap.compute, hg]
+
+/-- `GetAndDelete`/`Delete`'s `Compute`: the key is gone afterwards, nothing else changes, and the item that was
+there (if any) is remembered in `removed` (and in the ghost `erased`); only then does the call go on to fire the
+callback -/
+theorem gd_compute (t : Tid) (g : G K V) (l : L K V) (c : Choice K V) (g' : G K V) (l' : L K V)
+    (hpc : l.pc = .gdCompute) (hs : tstep t g l c = some (g', l')) :
+    ∃ k, opKey l = some k ∧ g'.items = g.items.erase k ∧ g'.items.get k = none ∧
+      (∀ k', k' ≠ k → g'.items.get k' = g.items.get k') ∧ l'.removed = g.items.get k ∧ g'.ledger = g.ledger ∧
+      match g.items.get k with
+      | some i => l'.pc = .gdReadCb ∧ l'.erased = l.erased ++ [(k, i.v)]
+      | none => l'.pc = .ret ∧ l'.erased = l.erased := by
+  simp only [tstep, hpc] at hs
+  split at hs
+  · rename_i k op hk ho
+    rw [compute_delete] at hs
+    simp only [Option.some.injEq, Prod.mk.injEq] at hs
+    obtain ⟨rfl, rfl⟩ := hs
+    refine ⟨k, hk, rfl, AMap.get_erase_self _ _, fun k' hk' => AMap.get_erase_ne _ _ _ (Ne.symm hk'), rfl, rfl, ?_⟩
+    cases g.items.get k <;> exact ⟨rfl, rfl⟩
+  · cases hs
+
+/-- one conditional delete of `DeleteExpired`: the current item of the key is removed (and logged for the
+callback, when one was read at the start of the pass) exactly when it is expired at the pass's clock; otherwise
+it stays in place -/
+theorem de_compute (t : Tid) (g : G K V) (l : L K V) (c : Choice K V) (g' : G K V) (l' : L K V)
+    (hpc : l.pc = .deCompute) (hs : tstep t g l c = some (g', l')) :
+    ∃ k i0, l.cur = some (k, i0) ∧ l'.pc = .deVisit ∧ g'.ledger = g.ledger ∧
+      (∀ k', k' ≠ k → g'.items.get k' = g.items.get k') ∧
+      match g.items.get k with
+      | none => g'.items = g.items ∧ l'.queue = l.queue ∧ l'.erased = l.erased
+      | some cur =>
+        if TTL.expired cur.e l.passNow then
+          g'.items = g.items.erase k ∧ g'.items.get k = none ∧
+          l'.queue = l.queue ++ (if l.ec.isSome then [(k, cur.v)] else []) ∧ l'.erased = l.erased ++ [(k, cur.v)]
+        else g'.items = g.items.set k cur ∧ g'.items.get k = some cur ∧ l'.queue = l.queue ∧ l'.erased = l.erased := by
+  simp only [tstep, hpc] at hs
+  split at hs
+  · rename_i k i0 hcur
+    rw [sweepFn_spec] at hs
+    simp only [Option.some.injEq, Prod.mk.injEq] at hs
+    obtain ⟨rfl, rfl⟩ := hs
+    refine ⟨k, i0, hcur, rfl, rfl, ?_, ?_⟩
+    · intro k' hk'
+      cases hgk : g.items.get k with
+      | none => rfl
+      | some cur =>
+        simp only
+        split
+        · exact AMap.get_erase_ne _ _ _ (Ne.symm hk')
+        · rw [AMap.get_set, if_neg (Ne.symm hk')]
+    · cases hgk : g.items.get k with
+      | none => simp
+      | some cur =>
+        by_cases he : TTL.expired cur.e l.passNow = true
+        · simp [he, item_expiredWithNow_eq, AMap.get_erase_self]
+        · simp [he, item_expiredWithNow_eq, AMap.get_set]
+  · cases hs
+
+/-- the ghost `erased` list is sound: an entry is appended exactly by a `Compute` of this thread that physically
+removes that entry from the map in that very step (`startOp` resets the list) -/
+theorem erased_step (t : Tid) (g : G K V) (l : L K V) (c : Choice K V) (g' : G K V) (l' : L K V)
+    (hs : tstep t g l c = some (g', l')) :
+    l'.erased = l.erased ∨ (l.pc = .idle ∧ l'.erased = []) ∨
+    ∃ k i, (l.pc = .gdCompute ∨ l.pc = .deCompute) ∧ l'.erased = l.erased ++ [(k, i.v)] ∧
+      g.items.get k = some i ∧ g'.items.get k = none := by
+  by_cases h1 : l.pc = .gdCompute
+  · obtain ⟨k, _, _, hn, _, _, _, hm⟩ := gd_compute t g l c g' l' h1 hs
+    cases hgk : g.items.get k with
+    | none => rw [hgk] at hm; exact Or.inl hm.2
+    | some i => rw [hgk] at hm; exact Or.inr (Or.inr ⟨k, i, Or.inl h1, hm.2, hgk, hn⟩)
+  · by_cases h2 : l.pc = .deCompute
+    · obtain ⟨k, i0, _, _, _, _, hm⟩ := de_compute t g l c g' l' h2 hs
+      cases hgk : g.items.get k with
+      | none => rw [hgk] at hm; exact Or.inl hm.2.2
+      | some i =>
+        rw [hgk] at hm
+        by_cases he : TTL.expired i.e l.passNow = true
+        · simp only [he, if_true] at hm
+          exact Or.inr (Or.inr ⟨k, i, Or.inr h2, hm.2.2.2, hgk, hm.2.1⟩)
+        · simp only [he, Bool.false_eq_true, if_false] at hm
+          exact Or.inl hm.2.2.2
+    · cases hpc : l.pc <;> simp only [hpc, reduceCtorEq, not_true_eq_false] at h1 h2 <;>
+        simp only [tstep, hpc] at hs
+      case idle =>
+        split at hs
+        · simp only [Option.some.injEq, Prod.mk.injEq] at hs
+          obtain ⟨rfl, rfl⟩ := hs
+          rename_i op _
+          exact Or.inr (Or.inl ⟨rfl, by cases op <;> rfl⟩)
+        · cases hs
+      all_goals
+        ((repeat' split at hs) <;>
+        simp only [Option.some.injEq, reduceCtorEq, Prod.mk.injEq] at hs <;>
+        obtain ⟨rfl, rfl⟩ := hs <;> exact Or.inl rfl)
+
+/-- **Every callback invocation reports an entry this thread removed earlier in the same call**: a step that
+appends `(cb, k, v)` to the ledger is a `gdFire`/`deFire` step, the callback is the one the call read, and
+`(k, v)` is in the thread's ghost list of entries its own `Compute`s physically removed during this call
+(`erased_step`); every other step leaves the ledger alone -/
+theorem ledger_only_removed (t : Tid) (g : G K V) (l : L K V) (c : Choice K V) (g' : G K V) (l' : L K V)
+    (hl : LI g.now l) (hs : tstep t g l c = some (g', l')) :
+    g'.ledger = g.ledger ∨
+    ∃ cb k v, g'.ledger = g.ledger ++ [(cb, k, v)] ∧ l.ec = some cb ∧ (k, v) ∈ l.erased ∧ g'.items = g.items ∧
+      ((l.pc = .gdFire ∧ opKey l = some k ∧ ∃ i, l.removed = some i ∧ i.v = v) ∨
+       (l.pc = .deFire ∧ ∃ rest, l.queue = (k, v) :: rest ∧ l'.queue = rest)) := by
+  cases hpc : l.pc <;> simp only [tstep, hpc] at hs
+  case gdFire =>
+    split at hs
+    · rename_i k i cbid hk hr hec
+      simp only [Option.some.injEq, Prod.mk.injEq] at hs
+      obtain ⟨rfl, rfl⟩ := hs
+      obtain ⟨i', hi', hmem⟩ := hl.rem (Or.inr hpc) k hk
+      have : i' = i := by rw [hr] at hi'; exact (Option.some.inj hi').symm
+      subst this
+      exact Or.inr ⟨cbid, k, i'.v, rfl, hec, hmem, rfl, Or.inl ⟨rfl, hk, i', hr, rfl⟩⟩
+    · simp only [Option.some.injEq, Prod.mk.injEq] at hs
+      obtain ⟨rfl, rfl⟩ := hs
+      exact Or.inl rfl
+  case deFire =>
+    split at hs
+    · rename_i k v rest cbid hq hec
+      simp only [Option.some.injEq, Prod.mk.injEq] at hs
+      obtain ⟨rfl, rfl⟩ := hs
+      exact Or.inr ⟨cbid, k, v, rfl, hec, hl.que (k, v) (by rw [hq]; exact List.mem_cons_self ..), rfl,
+        Or.inr ⟨rfl, rest, hq, rfl⟩⟩
+    · simp only [Option.some.injEq, Prod.mk.injEq] at hs
+      obtain ⟨rfl, rfl⟩ := hs
+      exact Or.inl rfl
+  all_goals
+    ((repeat' split at hs) <;>
+    simp only [Option.some.injEq, reduceCtorEq, Prod.mk.injEq] at hs <;>
+    obtain ⟨rfl, rfl⟩ := hs <;> exact Or.inl rfl)
+
+/-- **The expiry-driven deletes never remove a live entry**: `DeleteExpired`'s conditional delete (decided with
+the pass's clock `passNow ≤ now`) and `get`'s double-checked delete leave every entry that is unexpired at the
+current clock in place -/
+theorem never_removes_live (t : Tid) (g : G K V) (l : L K V) (c : Choice K V) (g' : G K V) (l' : L K V)
+    (hl : LI g.now l) (hpc : l.pc = .deCompute ∨ l.pc = .getCompute) (hs : tstep t g l c = some (g', l')) :
+    ∀ k' i, g.items.get k' = some i → TTL.expired i.e g.now = false → g'.items.get k' = some i := by
+  intro k' i hgi hlive
+  rcases hpc with hpc | hpc
+  · have hp := hl.pass (by rw [hpc]; rfl)
+    obtain ⟨k, i0, _, _, _, hoth, hm⟩ := de_compute t g l c g' l' hpc hs
+    by_cases hk : k' = k
+    · subst hk
+      rw [hgi] at hm
+      have : TTL.expired i.e l.passNow = false := by
+        cases h : TTL.expired i.e l.passNow
+        · rfl
+        · rw [expired_mono _ _ _ hp h] at hlive; cases hlive
+      simp only [this, Bool.false_eq_true, if_false] at hm
+      exact hm.2.1
+    · rw [hoth k' hk]; exact hgi
+  · simp only [tstep, hpc] at hs
+    split at hs
+    · rename_i k op hk ho
+      rw [compute_congr (f' := getFn (view g)), getFn_spec] at hs
+      case h => intro o; cases o <;> rfl
+      simp only [Option.some.injEq, Prod.mk.injEq] at hs
+      obtain ⟨rfl, rfl⟩ := hs
+      simp only [view]
+      by_cases hk' : k' = k
+      · subst hk'
+        simp [hgi, hlive, AMap.get_set]
+      · cases hgk : g.items.get k with
+        | none => exact hgi
+        | some j =>
+          by_cases he : TTL.expired j.e g.now = true
+          · simp only [he, if_true]
+            rw [AMap.get_erase_ne _ _ _ (Ne.symm hk')]; exact hgi
+          · simp only [he, Bool.false_eq_true, if_false]
+            rw [AMap.get_set, if_neg (Ne.symm hk')]; exact hgi
+    · cases hs
+
+/-! ## Progress (C13 at cache level): no step of a call in flight is ever disabled -/
+
+theorem cls_set (op : COp K V) (h : opCls op = .set) : ∃ k v d, op = .set k v d := by
+  cases op <;> simp only [opCls, reduceCtorEq] at h; exact ⟨_, _, _, rfl⟩
+theorem cls_sd (op : COp K V) (h : opCls op = .sd) : ∃ d, op = .setDefaultExpiration d := by
+  cases op <;> simp only [opCls, reduceCtorEq] at h; exact ⟨_, rfl⟩
+theorem cls_sc (op : COp K V) (h : opCls op = .sc) : ∃ d, op = .setEvictedCallback d := by
+  cases op <;> simp only [opCls, reduceCtorEq] at h; exact ⟨_, rfl⟩
+theorem cls_key (l : L K V) (op : COp K V) (ho : l.op = some op) (h : opCls op = .get ∨ opCls op = .gd) :
+    ∃ k, opKey l = some k := by
+  cases op <;> simp only [opCls, reduceCtorEq, or_self] at h <;> exact ⟨_, by unfold opKey; rw [ho]⟩
+
+/-- every pc of a call in flight has an enabled step, whatever the shared state and the environment's choice;
+an idle thread can start any call -/
+theorem no_step_blocks (t : Tid) (g : G K V) (l : L K V) (c : Choice K V) (hl : LI g.now l)
+    (h : l.pc ≠ .idle ∨ c.op.isSome = true) : (tstep t g l c).isSome = true := by
+  cases hpc : l.pc <;> simp only [tstep, hpc]
+  case idle =>
+    rcases h with h | h
+    · exact absurd hpc h
+    · cases hc : c.op with
+      | none => rw [hc] at h; cases h
+      | some op => rfl
+  case setStore =>
+    obtain ⟨op, ho, hc⟩ := hl.cls .set (by rw [hpc]; rfl)
+    obtain ⟨k, v, d, rfl⟩ := cls_set op hc
+    simp [ho]
+  case getLoad =>
+    obtain ⟨op, ho, hc⟩ := hl.cls .get (by rw [hpc]; rfl)
+    obtain ⟨k, hk⟩ := cls_key l op ho (Or.inl hc)
+    simp only [hk, ho]
+    split <;> rfl
+  case getChkClock =>
+    obtain ⟨op, ho, hc⟩ := hl.cls .get (by rw [hpc]; rfl)
+    obtain ⟨i, hi, _⟩ := hl.hind hpc
+    simp only [hi, ho]
+    split <;> rfl
+  case getCompute =>
+    obtain ⟨op, ho, hc⟩ := hl.cls .get (by rw [hpc]; rfl)
+    obtain ⟨k, hk⟩ := cls_key l op ho (Or.inl hc)
+    simp only [hk, ho]; rfl
+  case rmw =>
+    obtain ⟨op, ho, hc⟩ := hl.cls .rmw (by rw [hpc]; rfl)
+    simp only [ho]; rfl
+  case gdCompute =>
+    obtain ⟨op, ho, hc⟩ := hl.cls .gd (by rw [hpc]; rfl)
+    obtain ⟨k, hk⟩ := cls_key l op ho (Or.inr hc)
+    simp only [hk, ho]; rfl
+  case gdFire => split <;> rfl
+  case deVisit => (repeat' split) <;> rfl
+  case deCompute =>
+    have := hl.cur hpc
+    cases hcur : l.cur with
+    | none => rw [hcur] at this; cases this
+    | some p => obtain ⟨k, i⟩ := p; rfl
+  case deFire => split <;> rfl
+  case sdStore =>
+    obtain ⟨op, ho, hc⟩ := hl.cls .sd (by rw [hpc]; rfl)
+    obtain ⟨d, rfl⟩ := cls_sd op hc
+    simp [ho]
+  case scStore =>
+    obtain ⟨op, ho, hc⟩ := hl.cls .sc (by rw [hpc]; rfl)
+    obtain ⟨d, rfl⟩ := cls_sc op hc
+    simp [ho]
+  all_goals rfl
+
+/-! ## Reachable states: the step-level theorems above apply to every step of every run -/
+
+/-- every thread step of a reachable state is a `tstep` from a state satisfying the global invariant and the
+stepping thread's local invariant (the hypotheses of `lp_result`, `get_hindsight`, `ledger_only_removed`, …) -/
+theorem reach_tstep (dflt : Int) (cb : Option Nat) (now : Int) (h0 : 0 ≤ now) (s s' : St K V) (t : Tid)
+    (c : Choice K V) (δ : Nat) (hr : Reach dflt cb now s) (hs : step s (some t) c δ = some s') :
+    GI s.g ∧ LI s.g.now (s.l t) ∧ tstep t s.g (s.l t) c = some (s'.g, s'.l t) ∧ (∀ u, u ≠ t → s'.l u = s.l u) ∧
+    Reach dflt cb now s' := by
+  have hi := inv_reach dflt cb now s h0 hr
+  refine ⟨hi.1, hi.2 t, ?_, ?_, ?_⟩
+  · simp only [step] at hs
+    split at hs
+    · cases hs
+    · rename_i g' l' heq
+      simp only [Option.some.injEq] at hs; subst hs
+      simpa using heq
+  · intro u hu
+    simp only [step] at hs
+    split at hs
+    · cases hs
+    · simp only [Option.some.injEq] at hs; subst hs
+      simp [hu]
+  · obtain ⟨sched, hsched⟩ := hr
+    refine ⟨sched ++ [(some t, c, δ)], ?_⟩
+    have : ∀ (sc : List (Option Tid × Choice K V × Nat)) (a b : St K V), run a sc = some b →
+        run a (sc ++ [(some t, c, δ)]) = step b (some t) c δ := by
+      intro sc
+      induction sc with
+      | nil =>
+        intro a b hab
+        simp only [run, Option.some.injEq] at hab; subst hab
+        simp only [List.nil_append, run]
+        cases step a (some t) c δ <;> rfl
+      | cons x rest ih =>
+        obtain ⟨w, c', δ'⟩ := x
+        intro a b hab
+        simp only [run, List.cons_append] at hab ⊢
+        cases hst : step a w c' δ' with
+        | none => rw [hst] at hab; cases hab
+        | some a' => rw [hst] at hab; exact ih a' b hab
+    rw [this sched _ s hsched, hs]
 
 end Proofs.ConcCacheLin
